@@ -15,7 +15,7 @@ import os, random, importlib
 import vcommon
 from vcommon import VERIF
 
-PROPS = ["Bee2V/C19/Props.lean"]
+PROPS = ["Bee2V/C19/Props.lean", "Bee2V/C19/Props2.lean"]
 
 CPU = open("/proc/cpuinfo").read() if os.path.exists("/proc/cpuinfo") else ""
 
@@ -166,7 +166,7 @@ def compare(ref, out):
 
 def run(ctx):
     T0 = time.time()
-    proof_ok, log = ctx.prove(["Bee2V.C19.Props"], PROPS, drivers=[])
+    proof_ok, log = ctx.prove(["Bee2V.C19.Props", "Bee2V.C19.Props2"], PROPS, drivers=[])
     c64, c32, cbash, skipped = cfg_plan(ctx.tier)
     ctx.cov["configs_64"] = c64
     ctx.cov["configs_32"] = c32
